@@ -1,0 +1,33 @@
+//! Verification hooks (cargo feature `verif-hooks`, off by default).
+//!
+//! Exports, per thread, the byte extents of the five views that the last
+//! `MatrixSlab::alloc` call handed out so that a test harness can check that
+//! every view lies inside the slab allocation.
+
+use std::cell::Cell;
+
+/// Byte extents (offset, length) of the views created by the last successful
+/// `MatrixSlab::alloc` on this thread, relative to the start of the slab.
+#[derive(Clone, Copy, Debug, PartialEq, Eq)]
+pub struct SlabExtents {
+    /// size of the slab allocation in bytes
+    pub slab_size: usize,
+    /// haystack, bonus, row offsets, score cells, matrix cells
+    pub views: [(usize, usize); 5],
+    /// haystack and needle length of the request
+    pub haystack_len: usize,
+    pub needle_len: usize,
+}
+
+thread_local! {
+    static LAST: Cell<Option<SlabExtents>> = const { Cell::new(None) };
+}
+
+pub(crate) fn record(extents: SlabExtents) {
+    LAST.with(|l| l.set(Some(extents)));
+}
+
+/// Returns (and clears) the extents recorded by the last `alloc` on this thread.
+pub fn take_last_slab_extents() -> Option<SlabExtents> {
+    LAST.with(|l| l.take())
+}
